@@ -522,6 +522,9 @@ def main() -> int:
             cj = {"id": "%s@v%d" % (name, v), "family": "compound", "rec": to_json(rec), "version": v, "mode": "A", "loop_k": 2, "call_depth": 2, "lens": (0, 1)}
             cj.update(opts)
             cjobs.append(cj)
+            if ":vars:" in name and v >= 6:
+                # the same program with the slot optimiser forced on, through an options object that has compiled another program before
+                cjobs.append(dict(cj, id=cj["id"] + "/reused-options", optimize={"scratch_slots": True, "_reused": True}))
     cres = run_jobs("verif.tvjob:tv_recipe_job", cjobs)
     compound_programs = 0
     for r in cres:
